@@ -2559,7 +2559,8 @@ void read_table_column_alignments(const char * source, token * table, scratch_pa
 
 	walker = walker->child;
 
-	while (walker) {
+	// Leave room for the terminator -- further columns get the default alignment
+	while (walker && (counter < kMaxTableColumns - 1)) {
 		switch (walker->type) {
 			case TABLE_CELL:
 				align = scan_alignment_string(&source[walker->start]);
